@@ -210,4 +210,27 @@ def stackRes (loopKey : Bool) (s : ResS) : ResS × List Err :=
 /-- `Proxy.roundTrip`: the upstream is contacted iff the context does not skip the round trip. -/
 def sentUpstream (s : RS) : Bool := !s.skip
 
+/-! ### one exchange through `martian.Proxy` using the stack (`Proxy.handle`, non-CONNECT) -/
+
+/-- What can be observed of one exchange: how often the origin was contacted, the header it was
+handed, the status and header the client gets, and the two error lists (which the proxy turns
+into `Warning` values; those are not part of `seen` / `resHdr`). -/
+structure Exchange where
+  calls : Nat
+  seen : Header
+  reqErrs : List Err
+  status : Nat
+  resHdr : Header
+  resErrs : List Err
+
+/-- `Proxy.handle`: request modifiers; `roundTrip` answers a synthesised `200` with an empty header
+without contacting the origin when the context skips the round trip, else the origin's response;
+response modifiers on the same context. -/
+def exchange (env : Env) (h : Header) (originStatus : Nat) (originHdr : Header) : Exchange :=
+  let rq := stackReq env h
+  let res : ResS := if sentUpstream rq.1 then { hdr := originHdr, status := originStatus } else { hdr := [], status := 200 }
+  let rs := stackRes rq.1.loopKey res
+  { calls := if sentUpstream rq.1 then 1 else 0, seen := rq.1.hdr, reqErrs := rq.2,
+    status := rs.1.status, resHdr := rs.1.hdr, resErrs := rs.2 }
+
 end Martian.HttpSpec
